@@ -775,6 +775,85 @@ func c07Isolation(c *Ctx) {
 			}
 		}
 	}
+	// (7) one option value configures two routers (a Group does that for every router it makes; users keep an option list
+	// around): the lists given to WithCORS stay the caller's, the second router answers like the first, and the first
+	// answers afterwards as it did before
+	{
+		origins := []string{"https://b.example", "https://a.example", "https://b.example"}
+		allow := []string{"X-Token", "Authorization", "X-Token", "content-type"}
+		expose := []string{"X-Total", "X-Page", "X-Total"}
+		keepO, keepA, keepE := strings.Join(origins, "|"), strings.Join(allow, "|"), strings.Join(expose, "|")
+		opt := mux.WithCORS(origins, allow, expose, 60, true)
+		ask := func(rt *mux.Router[*mon.Hnd]) string {
+			pre := mon.Do(rt, mon.Req{Method: "OPTIONS", Path: "/c/7", Header: map[string]string{"Origin": "https://a.example", "Access-Control-Request-Method": "GET", "Access-Control-Request-Headers": "x-token, CONTENT-TYPE"}})
+			pre2 := mon.Do(rt, mon.Req{Method: "OPTIONS", Path: "/c/7", Header: map[string]string{"Origin": "https://b.example", "Access-Control-Request-Method": "GET", "Access-Control-Request-Headers": "authorization"}})
+			get := mon.Do(rt, mon.Req{Method: "GET", Path: "/c/7", Header: map[string]string{"Origin": "https://b.example"}})
+			hs := func(o *mon.Obs, k string) string { return strings.Join(mon.AllowSet(o.Header.Get(k)), ",") }
+			return fmt.Sprintf("preflight(x-token,content-type): origin=%q headers=%q | preflight(authorization): origin=%q | GET: origin=%q expose=%q",
+				pre.Header.Get("Access-Control-Allow-Origin"), hs(pre, "Access-Control-Allow-Headers"), pre2.Header.Get("Access-Control-Allow-Origin"),
+				get.Header.Get("Access-Control-Allow-Origin"), hs(get, "Access-Control-Expose-Headers"))
+		}
+		envA, envB := mon.NewEnv(), mon.NewEnv()
+		ra := envA.NewRouter("first", opt)
+		ra.Handle("/c/{id}", envA.NewHnd(mon.KRoute, "/c/{id}"), nil, "GET")
+		before := ask(ra)
+		rb := envB.NewRouter("second", opt)
+		rb.Handle("/c/{id}", envB.NewHnd(mon.KRoute, "/c/{id}"), nil, "GET")
+		c.Eval()
+		if got := ask(rb); got != before {
+			bad(fmt.Sprintf("two routers built from one WithCORS option value answer differently: first %s; second %s", before, got), nil)
+			return
+		}
+		if got := ask(ra); got != before {
+			bad(fmt.Sprintf("a router answers differently after a second router was built from the same WithCORS option value: before %s; after %s", before, got), nil)
+			return
+		}
+		if strings.Join(origins, "|") != keepO || strings.Join(allow, "|") != keepA || strings.Join(expose, "|") != keepE {
+			bad(fmt.Sprintf("the lists given to WithCORS were modified: origins %q allowHeaders %q exposedHeaders %q", origins, allow, expose), nil)
+			return
+		}
+		if !strings.Contains(before, `origin="https://a.example" headers=`) || !strings.Contains(before, `GET: origin="https://b.example"`) {
+			bad("a configured origin asking for configured headers is refused: "+before, nil)
+			return
+		}
+	}
+	// (8) patterns of two routers whose texts agree once the braces are ignored: `{lang:en}|zh` and `{lang:en|zh}`,
+	// `{n:\d+}s` and `{n:\d+s}`, `{ab:c+}` and `{a:bc+}` are different patterns. Whatever the first router made of its
+	// pattern, the second one resolves its own as the reference resolver says (both orders).
+	{
+		pairs := [][2]string{{`/docs/{lang:en}|zh`, `/docs/{lang:en|zh}`}, {`/t/{n:\d+}s`, `/t/{n:\d+s}`}, {`/k/{ab:c+}`, `/k/{a:bc+}`}, {`/m/{v:x}y{w:z}`, `/m/{v:x}y{wz}`}}
+		probes := []string{"/docs/en", "/docs/zh", "/docs/en|zh", "/t/30s", "/t/30", "/k/c", "/k/bc", "/k/cc", "/k/bcc", "/m/xyz", "/m/xyq"}
+		for _, pr := range pairs {
+			for _, first := range []int{0, 1} {
+				envA, envB := mon.NewEnv(), mon.NewEnv()
+				ra, rb := envA.NewRouter("first"), envB.NewRouter("second")
+				ra.Handle(pr[first], envA.NewHnd(mon.KRoute, pr[first]), nil, "GET")
+				for _, p := range probes {
+					mon.Do(ra, mon.Req{Method: "GET", Path: p})
+				}
+				own := pr[1-first]
+				rb.Handle(own, envB.NewHnd(mon.KRoute, own), nil, "GET")
+				rs := &ref.Resolver{Pats: parseAll([]string{own}, nil)}
+				for _, p := range probes {
+					o := mon.Do(rb, mon.Req{Method: "GET", Path: p})
+					c.Eval()
+					outs := rs.Resolve(p)
+					want := "404"
+					if len(outs) > 0 {
+						want = "200 " + fmtParams(outs[0].Params)
+					}
+					got := "404"
+					if !o.NodeNil {
+						got = fmt.Sprintf("%d %s", o.Status, fmtParams(o.Params))
+					}
+					if got != want {
+						bad(fmt.Sprintf("a router whose only route is %q answers GET %s with %s (expected %s) after another router had registered %q", own, p, got, want, pr[first]), nil)
+						return
+					}
+				}
+			}
+		}
+	}
 	c.Class("isolation_battery")
 }
 
